@@ -328,6 +328,10 @@ def run_program(src, budget=40000):
 #     every line of the selection was executed), and jedi's flow analysis cannot decide a condition
 #     statically from a partial inference (`u = K; if u % 3:` is `always true` for it - root cause
 #     extract-function-unreachable-branch-name-becomes-parameter, kept alive by corpus/C06);
+#   * closures (FlowG.closure_stmt): a lambda / local def whose body reads locals of the entry function as free
+#     variables, defined some statements behind the binding of those locals and called a few statements further on
+#     (controls: default argument, shadowing parameter, comprehension); a captured name is never rebound afterwards,
+#     and between definition and call only fresh names are bound (python closures bind late);
 # The behaviour of an entry function on an argument tuple is its return value.
 
 FLOW_LOCALS = ['acc', 'b', 'cnt', 'd', 'e', 'g', 'h', 'k', 'm', 'n', 'r', 's', 'tot', 'u', 'v', 'w', 'x', 'y', 'z',
@@ -346,6 +350,7 @@ class FlowG:
         self.glob = []           # module-level int constants
         self.loopvars = 0
         self.scopes = 0
+        self.captured = set()    # names read by the body of a closure: never rebound by a later statement
 
     def fresh(self):
         self.n += 1
@@ -427,6 +432,7 @@ class FlowG:
                 lines.append('%s    return (%s,)' % (ind, ', '.join(env[-3:])))
                 continue
             k = rng.random()
+            ro = self.ro(ctx)
             loc = [x for x in env if x not in ro]
             if depth > 0 and rng.random() < 0.07:
                 ls, env = self.while_stmt(env, ctx, ind, depth, in_loop)
@@ -434,6 +440,10 @@ class FlowG:
                 continue
             if rng.random() < 0.035:
                 ls, env = self.scope_stmt(env, ctx, ind, depth)
+                lines += ls
+                continue
+            if rng.random() < 0.075:
+                ls, env = self.closure_stmt(env, ctx, ind)
                 lines += ls
                 continue
             if k < 0.17 or not loc:
@@ -478,10 +488,11 @@ class FlowG:
                 env.append(v)
         return lines, env
 
-    @staticmethod
-    def ro(ctx):
-        """names a generated statement never rebinds: parameters and the counters of while loops"""
-        return set(ctx['params']) | set(ctx.get('frozen', ()))
+    def ro(self, ctx):
+        """names a generated statement never rebinds: parameters, the counters of while loops and the names a
+        closure has captured (python binds late: rebinding one between the definition of a closure and its call is a
+        side effect on the closure, such statements are outside the equivalence clause)"""
+        return set(ctx['params']) | set(ctx.get('frozen', ())) | self.captured
 
     def jump(self, ctx, ind):
         rng = self.rng
@@ -524,6 +535,70 @@ class FlowG:
         h = 'Loc%d' % self.scopes
         lines = ['%sclass %s:' % (ind, h), '%s    kk = %d' % (ind, rng.randint(1, 9)),
                  '%s%s = %s.kk + %s' % (ind, v, h, self._par(self.expr(env, 1)))]
+        return lines, env + [v]
+
+    def closure_stmt(self, env, ctx, ind):
+        """names of the enclosing function that are read from a NESTED scope which is entered later: a lambda / a local
+        def whose body reads them as free variables (a closure), defined here and called some statements further on;
+        controls: a default argument (evaluated at the definition), a parameter of the nested function that shadows
+        the local, a comprehension.  Often the captured names are bound just in front of the definition, next to
+        names that are used directly, so that runs of statements in front of the definition bind names whose only
+        later use is inside the nested body."""
+        rng = self.rng
+        lines = []
+        env = list(env)
+        ro = self.ro(ctx)
+        if rng.random() < 0.7 or not [x for x in env if x not in ro]:
+            # fresh bindings in front: captured ones and direct ones, in any order
+            for _ in range(rng.randint(1, 3)):
+                v = self.fresh()
+                lines.append('%s%s = %s' % (ind, v, self.expr(env, 1)))
+                env.append(v)
+        loc = [x for x in env if x not in ctx['params']] or list(env)
+        recent = loc[-3:]
+        free = rng.sample(recent, min(len(recent), rng.randint(1, 2)))
+        self.scopes += 1
+        k = rng.random()
+        body_expr = 'a'
+        for fv in free:
+            body_expr = '%s %s %s' % (body_expr, rng.choice('+-*'), fv)
+        call_arity = 1
+        if k < 0.4:
+            h = 'sh%d' % self.scopes
+            lines.append('%s%s = lambda a: %s' % (ind, h, body_expr))
+            self.captured |= set(free)
+        elif k < 0.7:
+            h = 'loc%d' % self.scopes
+            lines.append('%sdef %s(a):' % (ind, h))
+            if rng.random() < 0.5:
+                lines += ['%s    if a < %s:' % (ind, free[0]), '%s        return %s' % (ind, free[-1])]
+            lines.append('%s    return %s' % (ind, body_expr))
+            self.captured |= set(free)
+        elif k < 0.8:
+            # control: read at definition time (default argument), not from the body
+            h = 'loc%d' % self.scopes
+            lines.append('%sdef %s(a, bb=%s):' % (ind, h, free[0]))
+            lines.append('%s    return a %s bb' % (ind, rng.choice('+-*')))
+        elif k < 0.9:
+            # control: the parameter of the nested function shadows the local
+            h = 'sh%d' % self.scopes
+            lines.append('%s%s = lambda %s: %s %s %d' % (ind, h, free[0], free[0], rng.choice('+-*'), rng.randint(1, 5)))
+        else:
+            # a comprehension (evaluated here) whose element expression reads the locals
+            v = self.fresh()
+            lines.append('%s%s = [%s for a in (1, 2, %s)][%s %% 3]' % (ind, v, body_expr, self.atom(env),
+                                                                    self._par(self.atom(env))))
+            return lines, env + [v]
+        # statements between the definition and the call: they bind fresh names only
+        for _ in range(rng.randint(0, 2)):
+            v = self.fresh()
+            lines.append('%s%s = %s' % (ind, v, self.expr(env, 1)))
+            env.append(v)
+        v = self.fresh()
+        call = '%s(%s)' % (h, self.expr(env, 1))
+        if rng.random() < 0.3:
+            call = '%s + %s' % (call, '%s(%s)' % (h, self.atom(env)))
+        lines.append('%s%s = %s' % (ind, v, call))
         return lines, env + [v]
 
     def while_stmt(self, env, ctx, ind, depth, in_loop=False):
